@@ -217,7 +217,7 @@ pub fn run_c04(ctx: &Ctx, rep: &mut Report) {
             2 => mixed_start(rng, gid, &corpus),
             _ => Start::plain(synth::synth(rng, Density::Medium), "synth_dense"),
         };
-        let cfg = WalkCfg { max_plies: if miri { 6 } else { 80 }, null_per_mille: 0, stop_on_divergence: true, follow_library: false };
+        let cfg = WalkCfg { max_plies: if miri { 6 } else { 80 }, null_per_mille: 0, stop_on_divergence: true, follow_library: false, echo_per_mille: 50 };
         let mut mon = C04Mon { miri };
         playout(&start, &cfg, rng, &mut mon, rep);
     });
